@@ -371,7 +371,7 @@ def _gnn_validation(ctx, main, nmax, quick):
         o0, o = cases.gnn_opts(rng, n0), cases.gnn_opts(rng, n)
         args = dict(m0=spec0, m=spec, o0=dict(features=o0['features'], labels=o0['seeds']['all']['array']),
                     o=dict(features=o['features'], labels=o['seeds']['all']['array']),
-                    validation0=rng.choice([0.3, 0.5, 0.7]), validation=rng.choice([0.3, 0.5]), rs0=rng.randrange(100), rs=rng.randrange(100))
+                    validation0=rng.choice([0.3, 0.5, 0.7]), validation=rng.choice([0.3, 0.5]), rs0=rng.randrange(100), rs=rng.choice([0, rng.randrange(100)]))
         r = main.call('c16', 'gnn_validation', args, timeout=120)
         ctx.traces += 2
         ctx.count('GNNClassifier:state_validation', ('gnn_validation', repr(args)), True)
